@@ -1,4 +1,5 @@
 import LinfaSpec.Proofs.Vectorizer
+import Mathlib.Data.Nat.Basic
 
 /-!
 # C17 — Count and tf-idf vectorisers equal a naive count of the tokenised corpus
